@@ -11,9 +11,18 @@ from .spies import Recorder, RHSFault, Interrupt
 from .faults import InterruptAt, SourceIOFault, YamlIOFault, YamlReadFault
 
 
-def _kw(kw):
+def _steep_tanh(x):
+    return np.tanh(4. * x)
+
+
+def _kw(kw, op=None):
     kw = dict(kw)
     kw.setdefault('verbose', False)
+    if op is not None and op.get('custom_ops'):
+        # a user-defined entry of the backend's function table, handed to THIS compilation only (keyword `ops`)
+        mod = 'torch' if kw.get('backend') == 'torch' else ('jax.numpy' if kw.get('backend') == 'jax' else 'numpy')
+        kw['ops'] = {'tanh': {'call': 'steep_tanh', 'func': _steep_tanh,
+                              'def': "\ndef steep_tanh(x):\n    return tanh(4.*x)\n", 'imports': [f'{mod}.tanh']}}
     return kw
 
 
@@ -116,7 +125,7 @@ class World:
 
     def op_compile(self, op):
         c = self.objs[op['obj']]
-        kw = _kw(op['kw'])
+        kw = _kw(op['kw'], op)
         api = op.get('api', 'get_run_func')
         step = kw.pop('step_size', 1e-3)
         if op.get('input'):
@@ -153,7 +162,7 @@ class World:
 
     def op_run(self, op):
         c = self.objs[op['obj']]
-        kw = _kw(op['kw'])
+        kw = _kw(op['kw'], op)
         T, dt = kw.pop('T'), kw.pop('dt')
         outputs = kw.pop('outputs')
         if op.get('input'):
